@@ -1,5 +1,6 @@
 import PyYetiVerif.Model.Fixtime
 import PyYetiVerif.Model.FixtimeTnew
+import PyYetiVerif.Model.FixtimeDrops
 import PyYetiVerif.Model.Psd
 import PyYetiVerif.Model.PsdOct
 import PyYetiVerif.Model.Resample
@@ -11,6 +12,8 @@ exact (`Rat`)
 `cl told… | tnew…`                  → `_find_closest_times` (ints, may be -1) or `index-error`
 `pv told… | tnew…`                  → `_find_closest_previous_times`
 `cls told… | tnew…` / `pvs …`       → the numba (sequential) variants, or `index-error`
+`fxd deldrops delout | told… | drop flags… | sortvec…` → `_del_drops/_del_outtimes/_get_alldrops`:
+                                       `dropouts…(or none)|outtimes…|alldrops…|keep…`
 `rlen ln p q`                       → length of `resample`'s output
 `mkt sr | told…`                    → `_mk_initial_tnew`: `tnew…|tp…|align|delt|mismatch` or `raises`
 `tn t0 t1 ln p q`                   → the returned positions `tnew`
@@ -100,6 +103,14 @@ def answer (line : String) : String :=
         match Fixtime.prevSeq a v with
         | some idx => pure (fmtNats idx)
         | none => pure "index-error"
+    | [["fxd", dd, dout], told, flags, sv] => do
+        let dd ← parseBool dd; let dout ← parseBool dout
+        let told ← parseRats told
+        let flags ← flags.mapM parseBool
+        let sv ← sv.mapM (·.toNat?)
+        let r := Fixtime.fixtimeDrops told flags dd dout (if sv.isEmpty then none else some sv)
+        let d := match r.dropouts with | some d => fmtNats d | none => "none"
+        pure s!"{d}|{fmtNats r.outtimes}|{fmtNats r.alldrops}|{fmtNats r.keep}"
     | [["mkt", sr], told] => do
         let sr ← parseRat sr; let told ← parseRats told
         match Fixtime.mkInitialTnew told sr with
